@@ -1,1 +1,53 @@
-From LV Require Import Sweep.Model.
+(* Non-vacuity: the hypotheses of the C18 theorems are satisfied by concrete,
+   non-trivial states, and the conclusions are not trivially true. *)
+From Coq Require Import ZArith List Bool Lia.
+From LV Require Import Sweep.Model Sweep.Proofs Sweep.Final.
+Import ListNotations.
+Local Open Scope Z_scope.
+
+(* estimator path: ceiling 10000, conf target 10, relay 253, estimate 1000 *)
+Example ex_premises : ff_premises 10000 10 253 None.
+Proof. unfold ff_premises, start_ok, RMAX, WMAX. lia. Qed.
+
+Example ex_new : exists f0, new_ff64 10000 10 253 (EstOk 1000) None = Ok f0 /\
+  ff_cur f0 = 1000 /\ ff_delta f0 = 1000000 /\ ff_width f0 = 9.
+Proof. eexists. split; [vm_compute; reflexivity|]. repeat split. Qed.
+
+(* a real ramp: 9 blocks with one skipped height, ends exactly on the ceiling *)
+Example ex_ramp :
+  match new_ff64 10000 10 253 (EstOk 1000) None with
+  | Ok f0 => map (fun ops => ff_cur (frun64 f0 ops))
+                 [[]; [FConf 9]; [FConf 9; FConf 8]; [FConf 9; FConf 8; FConf 5];
+                  [FConf 9; FConf 8; FConf 5; FConf 1]]
+  | Err _ => []
+  end = [1000; 2000; 3000; 6000; 10000].
+Proof. vm_compute. reflexivity. Qed.
+
+(* supplied start inside the ceiling satisfies start_ok *)
+Example ex_premises_supplied : ff_premises 500 10 253 (Some 400).
+Proof. unfold ff_premises, start_ok, RMAX, WMAX. lia. Qed.
+
+(* publisher: budget 20000 sat over 1000 wu, MaxFeeRate 250000; the mempool
+   first asks for more fee, then accepts; three blocks follow *)
+Definition ex_ins := [mkInp 0 100000 None; mkInp 1 50000 (Some 49000)].
+
+Example ex_pub_nonempty :
+  map (fun e => (fst e, tx_fee (snd e), tx_outs (snd e)))
+      (pub_trace64 ex_ins 1000 330 20000 250000 100 110 253 (EstOk 1000) None
+                   [VFee; VAccept] [(101, VAccept); (104, VAccept); (109, VAccept)])
+  = [(3111, 3111, [49000; 97889]); (9444, 9444, [49000; 91556]); (20000, 20000, [49000; 81000])].
+Proof. vm_compute. reflexivity. Qed.
+
+Example ex_pub_premises :
+  0 <= 20000 <= BMAX /\ 1 <= 1000 < WMAX /\ 0 <= 250000 <= RMAX /\
+  start_ok (max_fee_rate_allowed64 20000 1000 250000) 253 None.
+Proof.
+  assert (E : max_fee_rate_allowed64 20000 1000 250000 = 20000) by (vm_compute; reflexivity).
+  rewrite E. unfold BMAX, WMAX, RMAX, start_ok. lia.
+Qed.
+
+(* the dust branch: change below the floor goes to the fee, no change output *)
+Example ex_dust :
+  create_checked [mkInp 0 1000 None; mkInp 1 5000 (Some 5000)] 1000 330 2000 800
+  = Ok (mkTx [mkInp 1 5000 (Some 5000); mkInp 0 1000 None] [5000] None 1000).
+Proof. vm_compute. reflexivity. Qed.
